@@ -74,6 +74,23 @@ func lexCase(c *explore.Ctx, s *explore.SubStats, text string, conformance, posi
 	s.Sample(func() any { return map[string]any{"input": text, "tokens": lexShape(m)} })
 	if conf != "" {
 		if !conformance {
+			if ref, sameTokens := positionReference(text, im); sameTokens && positions {
+				// same tokens as the grammar (or as the grammar with a recorded defect emulated):
+				// any difference in extents, lines or columns is a position defect
+				if k, d, ok := extentOnlyDiff(im, ref); ok {
+					c.Report(s, explore.Violation{Key: k, Input: explore.J(lexInput{text}), Rendered: text, Detail: d})
+					return
+				}
+				_, ps := lexDiffAll(im, ref)
+				seen := map[string]bool{}
+				for _, p := range ps {
+					if !seen[p.Key] {
+						seen[p.Key] = true
+						c.Report(s, explore.Violation{Key: p.Key, Input: explore.J(lexInput{text}), Rendered: text, Detail: p.Detail})
+					}
+				}
+				return
+			}
 			if k, d, ok := extentOnlyDiff(im, m); ok && positions {
 				// same tokens at wrong offsets: a position defect
 				c.Report(s, explore.Violation{Key: k, Input: explore.J(lexInput{text}), Rendered: text, Detail: d})
